@@ -157,6 +157,9 @@ def run(ctx):
     from .c12 import word_loop_order, bank_decode
     word_loop_order(ctx, "V3", classes=("CSRStatus",))
     bank_decode(ctx, "V3")
+    # V7: an acknowledge clears exactly the bits written: the shared CSR bus ORs all masters (C14.E10 decides the same construct)
+    from .c14 import _e10
+    _e10(ctx, "V7")
     # ... and `enable.storage[i]` is the bit software wrote for source i only if bus word w of the enable register is bits
     # [w*busword : ...] of its storage (more sources than the CSR bus is wide)
     storage_word_slices(ctx, "V3")
